@@ -13,7 +13,7 @@ namespace Pydjinni.Gen
 def javaPackageL (c : JavaCfg) (ns : List String) : List String :=
   c.package ++ ns.map (convert c.packageStyle)
 
-def javaPackage (c : JavaCfg) (ns : List String) : String := ".".intercalate (javaPackageL c ns)
+def javaPackage (c : JavaCfg) (ns : List String) : String := joinS "." (javaPackageL c ns)
 
 /-- the simple name a *reference* to the type uses (`typename` takes the un-suffixed record name;
     anonymous functions use `str.title()`) -/
@@ -56,13 +56,14 @@ def applyAnnotation (ty : String) (ann : Option String) : String :=
     | some (pkg, name) => String.ofList pkg ++ "." ++ a ++ " " ++ String.ofList name ++ String.ofList rest
     | none => a ++ " " ++ ty
 
+/-- the annotated head of a written type: boxed name under `boxed` / optional, nullable / nonnull annotation -/
+def javaHead (c : JavaCfg) (d : TDef) (optional boxed : Bool) : String :=
+  applyAnnotation (if boxed || optional then javaBoxed c d else javaTypename c d) (if optional then c.nullable else c.nonnull)
+
 mutual
 /-- `compute_data_type(type_ref, boxed)` -/
 def javaDataType (c : JavaCfg) : RType → Bool → String
-  | .mk d args optional, boxed =>
-    let out := if boxed || optional then javaBoxed c d else javaTypename c d
-    let out := if optional then applyAnnotation out c.nullable else applyAnnotation out c.nonnull
-    if args.isEmpty then out else out ++ "<" ++ ", ".intercalate (javaDataTypes c args) ++ ">"
+  | .mk d args optional, boxed => applyArgs (javaHead c d optional boxed) (javaDataTypes c args)
 /-- generic arguments are always boxed -/
 def javaDataTypes (c : JavaCfg) : List RType → List String
   | [] => []
